@@ -1890,6 +1890,7 @@ def generate(rng, tier):
     # --- histories on long-lived objects (simulators, circuits, operations, arrays), wide registers, long programs
     cases += _histories(rng, big)
     cases += _twin_cases(rng, big)
+    cases += _tiny_cases(rng, big)
     # --- malformed stream
     for _ in range(40 if big else 8):
         n = rng.choice([2, 3])
@@ -1940,6 +1941,26 @@ def _twin_cases(rng, big):
             out.append({"kind": "circuit", "n": rng.choice([None, n]), "ops": ops, "v": _gvec(rng, n), "sym": "none"})
         else:
             out.append({"kind": "sim", "n": n, "ops": ops, "v": rng.choice([None, _unit_vec(rng, n)]), "native": _native(rng, n)})
+    return out
+
+
+def _tiny_cases(rng, big):
+    """gates EXTREMELY close to the identity (rotations by 1e-4 … 1e-9): a tolerance-based "is this the identity?" shortcut in any
+    route (to_unitary, apply, a simulator) treats them as absent, the other routes do not (oracle only: raw angles)"""
+    out = []
+    for _ in range(16 if big else 6):
+        n = rng.randrange(1, 4)
+        ops = []
+        for _ in range(rng.randrange(2, 6)):
+            name = rng.choice(["RZ", "PHASE", "RX", "RY", "RZ", "PHASE"] + (["CPHASE", "ZZ", "XX"] if n >= 2 else []))
+            x = Fraction(rng.choice([1, 2, 3, 8]), 10 ** rng.randrange(4, 10)) * rng.choice([1, -1])
+            ops.append({"g": {"gate": name, "angles": [{"raw": str(x)}]}, "qs": rng.sample(range(n), circ.BUILTIN_QUBITS[name])})
+            if rng.random() < 0.4:
+                ops.append(_op(rng, n, _unitary_gate(rng, n, 2)))
+        if rng.random() < 0.5:
+            out.append({"kind": "circuit", "n": n, "ops": ops, "v": _gvec(rng, n), "sym": "none"})
+        else:
+            out.append({"kind": "sim", "n": n, "ops": ops, "v": _unit_vec(rng, n), "native": _native(rng, n)})
     return out
 
 
